@@ -81,14 +81,18 @@ Definition tab_q (t : table) (l : list Z) (i : Z) : option Q :=
   | None => None
   end.
 
-(* which distribution a line is about; [small] = evaluate the model functions too *)
+(* which distribution a line is about *)
 Inductive dist := DBin (n : Z) (p : Q) | DHg (N K n : Z).
+(* the model functions themselves are evaluated too when that is cheap: N <= 14 and, for the
+   binomial, P with at most 12 fractional bits (or N <= 4) *)
 Definition small_limit : Z := 14.
+Definition bin_small (n : Z) (p : Q) : bool :=
+  (n <=? 4) || ((n <=? small_limit) && (Zpos (Qden p) <=? 4096)).
 Definition model_agrees (d : dist) (t : table) (ki : Z) : bool :=
   let lo := t_lo t in let hi := t_hi t in
   match d with
   | DBin n p =>
-      if small_limit <? n then true else
+      if negb (bin_small n p) then true else
       (if (ki <? lo) || (hi <? ki) then Qeq_bool (binom_pmf_i n p ki) 0
        else match tab_q t (t_w t) (ki - lo) with Some q => Qeq_bool (binom_pmf_i n p ki) q | None => false end)
       && (if ki <? lo then Qeq_bool (binom_cdf_i n p ki) 0
@@ -114,7 +118,7 @@ Definition item_tag (d : dist) (t : table) (k : Q) (ki : Z) : Z :=
   (Z.lor (if ki <? lo then 8 else if hi <=? ki then 16 else 4)
   (Z.lor (if Qeq_bool k (inject_Z ki) then 0 else 32)
    match d with
-   | DBin n p => Z.lor (if (Qnum p =? 0) || Qeq_bool p 1 then 512 else 0) (if small_limit <? n then 0 else 1024)
+   | DBin n p => Z.lor (if (Qnum p =? 0) || Qeq_bool p 1 then 512 else 0) (if bin_small n p then 1024 else 0)
    | DHg N K n => Z.lor 64 (Z.lor (if interior then (if hg_flip_test N K n ki then 128 else 256) else 0)
                                    (if small_limit <? N then 0 else 1024))
    end)).
